@@ -165,6 +165,15 @@ def catalogue():
     mk("update-vs-unlink", two, [[P(two[0], b"upd")], [R(two[0])]], removed=two[1:8])
     mk("get-vs-unlink", two, [[G(two[0]), G(two[12])], [R(two[0]), P(two[0], b"again")]], removed=two[1:8])
     mk("rem-rem", [b"a", b"b"], [[R(b"a")], [R(b"a")]])
+    # a reader of k racing with remove(k) + insert of ANOTHER key that re-uses the freed slot
+    mk("get-vs-rem-put-other", [b"a", b"b"], [[G(b"a")], [R(b"a"), P(b"c", b"other-key-value")]], extra_finals=[b"c"])
+    mk("get-vs-rem-put-other2", [b"a", b"b", b"c"], [[G(b"b"), G(b"b")], [R(b"b"), P(b"bb", b"zz")]], extra_finals=[b"bb"])
+    # a reader of the greatest / a middle key racing with a remove or an insert of another key (ranks shift)
+    mk("get-last-vs-rem-first", [b"a", b"b", b"c"], [[G(b"c")], [R(b"a")]])
+    mk("get-last-vs-rem-mid", [b"a", b"b", b"c", b"d"], [[G(b"d"), G(b"c")], [R(b"b")]])
+    mk("get-mid-vs-put-first", [b"b", b"c", b"d"], [[G(b"c"), G(b"d")], [P(b"a", b"nw")]], extra_finals=[b"a"])
+    mk("rem-last-vs-rem-first", [b"a", b"b", b"c"], [[R(b"c")], [R(b"a")]])
+    mk("uput-last-vs-rem-first", [b"a", b"b", b"c"], [[U(b"c", b"dup")], [R(b"a")]])
     mk("rem-put-get", [b"a", b"b"], [[R(b"a"), G(b"a")], [P(b"a", b"nw")], [G(b"a")]])
     # scans against splits
     for newk in (b"Z", b"J", b"B"):
@@ -177,12 +186,26 @@ def catalogue():
     mk("links-only-scan-vs-insert", links_only, [[ALL], [P(b"q", b"new")]], extra_finals=[b"q"])
     mk("links-only-range-vs-insert", sub, [["scan %s %s IN %s IN 0 0" % (S, hx(b"prefix88"), hx(b"prefix88z"))],
                                            [P(b"prefix88", b"new")]], extra_finals=[b"prefix88"])
+    # a size-limited scan that ends below a link of a border which produced no tuple of its own, against an insert
+    # into that border in front of the link
+    mk("links-only-limited-vs-insert-before", links_only, [["scan %s - INF - INF 1 0" % S], [P(b"a", b"new")]],
+       extra_finals=[b"a"])
+    mk("links-only-limited2-vs-insert-before", links_only, [["scan %s - INF - INF 3 0" % S], [P(b"pa", b"new")]],
+       extra_finals=[b"pa"])
     mk("sublayer-scan-vs-layer-insert", sub, [[ALL], [P(b"prefix88bb", b"new")]], extra_finals=[b"prefix88bb"])
     # scan standing between two borders while the left one is emptied and unlinked (F8)
     mk("scan-vs-unlink-reinsert", two, [["scan %s %s IN %s IN 0 0" % (S, hx(two[0]), hx(two[15]))],
                                         [R(two[0]), P(two[0], b"again")]], removed=two[1:8])
     mk("scan-vs-unlink-smaller", two, [[ALL], [R(two[0]), P(b"/", b"small")]], removed=two[1:8], extra_finals=[b"/"])
     return out
+
+
+def catalogue_gen(rng, name):
+    """conc_phase generator: the catalogue scenario called cat:<name>"""
+    for sc in catalogue():
+        if sc.name == "cat:" + name:
+            return sc
+    raise KeyError(name)
 
 
 def gen_storage_race(rng, shape="storages"):
